@@ -344,6 +344,7 @@ func runGen(args []string) int {
 	enums := g.genEnums(repo)
 	nyct := g.genNyct(repo)
 	footprint := g.genFootprint(repo)
+	panics := g.genPanicSites(repo)
 	if len(g.errs) > 0 {
 		for _, e := range g.errs {
 			fmt.Fprintln(os.Stderr, "gen:", e)
@@ -360,6 +361,10 @@ func runGen(args []string) int {
 		return 1
 	}
 	if err := os.WriteFile(filepath.Join(out, "Footprint.v"), []byte(footprint), 0o644); err != nil {
+		fmt.Fprintln(os.Stderr, err)
+		return 1
+	}
+	if err := os.WriteFile(filepath.Join(out, "PanicSites.v"), []byte(panics), 0o644); err != nil {
 		fmt.Fprintln(os.Stderr, err)
 		return 1
 	}
